@@ -34,3 +34,5 @@ for c in "$@"; do
 done
 git -C /repo checkout -- .
 git -C /repo status --short | head -3
+# the runs above were against a patched tree: their evidence files are not evidence of /repo; put the committed ones back
+git -C /verif checkout -- evidence/
